@@ -1242,4 +1242,42 @@ theorem runIn_eq_run (frame : List Str) (st : Store) (as : List Assign) (h : ∀
   intro a ha
   simp [h a ha]
 
+/-! ## hand-overs of one long-lived mapping object (heap model of `_generate_env_str`'s `dict(...)` / `.pop`) -/
+
+theorem genEnvStrBody_eq (ro : List Str) (env : Env) :
+    genEnvStrBody ro (env.lookup marker) (env.filter fun kv => kv.1 != marker) = genEnvStr ro env := by
+  have h : nonexportedOfVal (env.lookup marker) = nonexportedOf env := by
+    unfold nonexportedOf
+    cases env.lookup marker with
+    | none => rfl
+    | some v => cases v <;> rfl
+  unfold genEnvStrBody genEnvStr items
+  rw [h]
+
+/-- one call with the defensive copy: the text is that of the object's entries, the heap gains one object (the copy,
+from which the marker was popped) and every object that existed before — the caller's included — is unchanged -/
+theorem genEnvStrCall_copy (ro : List Str) (h : Heap) (a : Nat) :
+    (genEnvStrCall true ro h a).1 = genEnvStr ro (h.get a) ∧
+    (genEnvStrCall true ro h a).2.length = h.length + 1 ∧
+    ∀ b, b < h.length → (genEnvStrCall true ro h a).2.get b = h.get b := by
+  have hw : Heap.get (h ++ [h.get a]) h.length = h.get a := by simp [Heap.get]
+  refine ⟨?_, ?_, ?_⟩
+  · simp only [genEnvStrCall, Heap.alloc, Heap.popMarker, if_true, hw]
+    rw [← genEnvStrBody_eq]
+    congr 1
+    simp [Heap.get]
+  · simp [genEnvStrCall, Heap.alloc, Heap.popMarker]
+  · intro b hb
+    simp only [genEnvStrCall, Heap.alloc, Heap.popMarker, if_true]
+    simp [Heap.get, List.getElem?_append_left hb]
+
+theorem handovers_copy (ro : List Str) (n : Nat) : ∀ (h : Heap) (a : Nat), a < h.length →
+    handovers true ro n h a = List.replicate n (genEnvStr ro (h.get a)) := by
+  induction n with
+  | zero => intros; rfl
+  | succ n ih =>
+    intro h a ha
+    obtain ⟨h1, h2, h3⟩ := genEnvStrCall_copy ro h a
+    rw [handovers, h1, ih _ a (by omega), h3 a ha, List.replicate_succ]
+
 end Pkgcore.C31
